@@ -102,7 +102,7 @@ func genC13(t *rapid.T) C13Case {
 		Depth:    rapid.IntRange(1, depthMax(5, 7)).Draw(t, "depth"),
 		MaxArity: rapid.IntRange(2, 5).Draw(t, "maxarity"),
 		Failing:  rapid.IntRange(0, 3).Draw(t, "failing") == 0,
-		Custom:   true, Stateful: true, Consts: true, Aliases: true,
+		Custom:   true, Stateful: true, Consts: true, Aliases: true, StrBias: true,
 	}}
 	c := C13Case{Infix: rapid.IntRange(0, 3).Draw(t, "infix") == 0, Events: pickW(t, "events", 2, 1, 1)}
 	var tree *m.Node
